@@ -88,7 +88,20 @@ func (b *Broker) Consume(c *Conn, respond bool) bool {
 			}
 		}
 		replies = append(replies, &codec.Packet{T: "CONNACK", SP: sp, RC: 0})
+		if b.w.Frame != nil {
+			// framing run: the whole stream follows CONNACK at once
+			for _, fp := range b.w.Frame {
+				if fp.T == "PUBLISH" && fp.QoS > 0 {
+					b.out = append(b.out, &OutMsg{ID: fp.ID, QoS: fp.QoS, Topic: fp.Topic, Payload: fp.Payload, State: "sent"})
+				}
+				replies = append(replies, fp)
+			}
+			b.w.Frame = nil
+		}
 		for _, m := range b.out {
+			if b.w.Idle != nil {
+				break // no retransmissions in framing runs
+			}
 			switch m.State {
 			case "sent":
 				replies = append(replies, &codec.Packet{T: "PUBLISH", ID: m.ID, QoS: m.QoS, Dup: true, Topic: m.Topic, Payload: m.Payload})
